@@ -47,6 +47,7 @@ class Ctl(object):
         self.rcpts = {}        # small id -> original recipient address list
         self.stored = set()
         self.inflight = set()
+        self.content2id = {}   # content of a stored message -> small id (first writer wins)
         self.inner_busy = 0
         self.stall_marker = None   # a delivery program that is going to outlive its timeout says so by creating this file
 
@@ -74,6 +75,14 @@ class Ctl(object):
 
     def now(self):
         return int(CLOCK.now)
+
+
+def content_key(env):
+    try:
+        hdr, body = env.flatten()
+        return hash((bytes(hdr), bytes(body)))
+    except Exception:  # noqa
+        return None
 
 
 def positions(ctl, sid, addrs):
@@ -117,6 +126,7 @@ class GStore(QueueStorage):
         sid = c.sid(raw)
         c.rcpts[sid] = list(envelope.recipients)
         c.obj2id[id(envelope)] = sid
+        c.content2id.setdefault(content_key(envelope), sid)
         c.keep.append(envelope)
         c.stored.add(sid)
         c.log(t='store', op='write', id=sid, ts=int(timestamp), n=len(envelope.recipients),
@@ -418,6 +428,11 @@ class Scenario(object):
         """small store id of the message an envelope (or a copy with a subset of its recipients) belongs to"""
         c = self.ctl
         sid = c.obj2id.get(id_(env))
+        if sid:
+            return sid
+        # a copy made by the queue (envelope.copy(rcpts)) has the content of the stored message: two bounces of one message
+        # go to the same address, only their content tells them apart
+        sid = c.content2id.get(content_key(env))
         if sid:
             return sid
         for a in env.recipients:
